@@ -1,6 +1,7 @@
 package main
 
 import (
+	"fmt"
 	"go/token"
 	"go/types"
 
@@ -336,12 +337,69 @@ func (x *Exec) lookup(cfg *Config, f *Frame, i *ssa.Lookup) Val {
 	return x.wrapLoaded(v, m.Elem())
 }
 
+// Range over a map. The iterator keeps two ghost values per range statement:
+// the set of keys produced so far (visited) and their number (visitcount),
+// readable in loop invariants. TRUSTED (Go specification): every key produced
+// is in the map at that time and was not produced before; when the iteration
+// ends every key that was present at the start and still is has been produced;
+// if the key set did not change during the iteration, the number of keys
+// produced equals len(map).
+func miName(r *ssa.Range, what string) string {
+	return fmt.Sprintf("$mi!%d!%s", int(r.Pos()), what)
+}
+
 func (x *Exec) rangeOp(cfg *Config, f *Frame, i *ssa.Range) Val {
-	unsupported("range over map/string")
-	return nil
+	m, ok := i.X.Type().Underlying().(*types.Map)
+	if !ok {
+		unsupported("range over string")
+	}
+	if isStructType(m.Elem()) || isStructType(m.Key()) {
+		unsupported("map with struct key/value")
+	}
+	st := cfg.st
+	ref := x.tv(x.get(f, i.X))
+	dom, _, _ := x.mapNames(m)
+	ks := x.sortOf(m.Key())
+	domArr := x.heapGet(st, dom, SArr(SInt, SArr(ks, SBool)))
+	none := x.d.Fresh("novisit", SArr(ks, SBool))
+	k := Term{"k!mi", ks}
+	st.assume(Forall([]Term{k}, Not(Select(none, k)), []Term{Select(none, k)}))
+	st.heap[miName(i, "vis")] = none
+	st.heap[miName(i, "cnt")] = x.intLit(0, x.idxSort())
+	st.heap[miName(i, "dom0")] = Ite(Eq(ref, IntLit(0)), none, Select(domArr, ref))
+	x.usedTrusted["model: range over a map (each key at most once; keys present throughout are all produced; count equals len when the key set is unchanged)"] = true
+	return TV{T: ref}
 }
 
 func (x *Exec) nextOp(cfg *Config, f *Frame, i *ssa.Next) ([]*Config, bool) {
-	unsupported("range over map/string")
-	return nil, true
+	r, ok := i.Iter.(*ssa.Range)
+	if !ok || i.IsString {
+		unsupported("range over string")
+	}
+	m := r.X.Type().Underlying().(*types.Map)
+	st := cfg.st
+	ref := x.tv(x.get(f, r))
+	dom, vals, _ := x.mapNames(m)
+	ks, vs := x.sortOf(m.Key()), x.sortOf(m.Elem())
+	domArr := x.heapGet(st, dom, SArr(SInt, SArr(ks, SBool)))
+	valArr := x.heapGet(st, vals, SArr(SInt, SArr(ks, vs)))
+	vis := x.heapGet(st, miName(r, "vis"), SArr(ks, SBool))
+	cnt := x.heapGet(st, miName(r, "cnt"), x.idxSort())
+	dom0 := x.heapGet(st, miName(r, "dom0"), SArr(ks, SBool))
+	okT := x.d.Fresh("rangeok", SBool)
+	key := x.d.Fresh("rangekey", ks)
+	nonnil := Neq(ref, IntLit(0))
+	domNow := Select(domArr, ref)
+	k := Term{"k!mi", ks}
+	st.assume(Implies(okT, And(nonnil, Select(domNow, key), Not(Select(vis, key)))))
+	st.assume(Implies(Not(okT), Forall([]Term{k}, Implies(And(nonnil, Select(domNow, k), Select(dom0, k)), Select(vis, k)), []Term{Select(vis, k)})))
+	st.assume(Implies(And(Not(okT), nonnil, Forall([]Term{k}, Eq(Select(domNow, k), Select(dom0, k)))), Eq(cnt, x.mapLen(st, ref, m))))
+	st.assume(Implies(And(Not(okT), Not(nonnil)), Eq(cnt, x.intLit(0, x.idxSort()))))
+	st.heap[miName(r, "vis")] = Ite(okT, Store(vis, key, True), vis)
+	st.heap[miName(r, "cnt")] = Ite(okT, Add(cnt, x.intLit(1, x.idxSort())), cnt)
+	val := Select(Select(valArr, ref), key)
+	x.assumeLoaded(st, val, m.Elem())
+	f.regs[i] = TupV{TV{T: okT}, TV{T: key}, x.wrapLoaded(val, m.Elem())}
+	f.idx++
+	return nil, false
 }
